@@ -75,6 +75,8 @@ GEN = {
                                                  {"decl": "const std::string &label() const"}]},
         {"decl": "enum Mode { ONE, TWO = 5 }"},
         {"decl": "Mode mode(Mode m)"},
+        # an enumeration with a member defined by an expression over earlier members, followed by members without a value
+        {"decl": "enum Level { QUIET, INFO = 4, WARN, NOISY = INFO + WARN, DEBUGL, TRACE }"},
         # defaulted arguments whose conversion declares a C++ local (enum cast, std::string): one scope per case of the Python switch
         {"decl": "int paint(int n, Mode c = ONE)"},
         {"decl": "int label2(int n, const std::string &name = \"x\")"},
@@ -134,6 +136,7 @@ class Thing { public: Thing(); Thing(int n, int fill = 3); ~Thing(); double val(
   int stats(int *count, int scale) const; int last(int scale, int *count) const; int tally(int *total, int step) const; };
 enum Mode { ONE, TWO = 5 };
 Mode mode(Mode m);
+enum Level { QUIET, INFO = 4, WARN, NOISY = INFO + WARN, DEBUGL, TRACE };
 int paint(int n, Mode c = ONE); int label2(int n, const std::string &name = "x"); int both(Mode c = TWO, const std::string &name = "y", int k = 3);
 namespace inner { int deep(int x); }
 '''
